@@ -15,7 +15,7 @@ import sys
 
 import numpy
 
-from sim import lifetimes, observe, worldgen
+from sim import lifetimes, observe, seams, worldgen
 from . import common
 
 
@@ -47,7 +47,7 @@ class FloorSim:
     def gen_plan(self, rng, tier):
         big = tier == 'thorough'
         world = worldgen.gen_world(rng, max_n=4 if big else 3, max_faces=8 if big else 5, max_vars=4, with_time=rng.random() < 0.8,
-                                   allow_holes=False, materialise=rng.choice(['memory', 'memory', 'file', 'chunked']), min_vars=2)
+                                   allow_holes=False, materialise=rng.choice(['memory', 'memory', 'file', 'chunked', 'chunked_auto', 'chunked_auto']), min_vars=2)
         worldgen.add_depths(rng, world, max_layers=5 if big else 4)
         vias = [rng.choice(['ops', 'ops', 'ops_names'])]
         if world['time']:
@@ -56,7 +56,8 @@ class FloorSim:
         # history: datasets of the same model grid (same dimensions, sizes, layer depths) but another bathymetry, reduced
         # earlier in the same process -- whatever emsarray remembers from them must not show in this dataset's floor
         before = [rng.randrange(1 << 30) for _ in range(rng.choice([1, 1, 2]))] if rng.random() < 0.35 else []
-        return {'engine': self.name, 'world': world, 'vias': vias, 'fresh_hashseeds': fresh, 'before': before}
+        return {'engine': self.name, 'world': world, 'vias': vias, 'fresh_hashseeds': fresh, 'before': before,
+                'penv': seams.gen_process_env(rng)}
 
     def shrink(self, plan):
         if plan.get('before'):
@@ -112,12 +113,14 @@ class FloorSim:
 
     def run(self, plan, scratch, out):
         world = worldgen.World(plan['world'])
-        res = lifetimes.run_lifetime(_floor_lifetime, plan['world'], plan['vias'], scratch, plan.get('before') or [])
+        res = lifetimes.run_lifetime(_floor_lifetime, plan['world'], plan['vias'], scratch, plan.get('before') or [], plan.get('penv'))
         if res['status'] != 'exit':
             out.harness_error = f'lifetime: {res["status"]}: {res["error"]}'
             return
         for kind, payload in res['events']:
             out.event(kind, **payload)
+            if kind == 'probe':
+                out.stats[f"probe.{payload['name']}"] += 1
         results = res['obs'].get('results', [])
         pre = res['obs'].get('pre')
         for bi, fs in enumerate(plan.get('before') or []):
@@ -278,7 +281,8 @@ def _evaluate(world_spec, vias, scratch, orders, tag='input'):
     return pre, results
 
 
-def _floor_lifetime(ctx, world_spec, vias, scratch, before):
+def _floor_lifetime(ctx, world_spec, vias, scratch, before, penv=None):
+    seams.apply_process_env(penv, ctx, scratch)
     for bi, fs in enumerate(before or []):
         pre_b, results_b = _evaluate(_with_floor(world_spec, fs), vias, scratch, [None], tag=f'before{bi}_')
         for r in results_b:
